@@ -463,7 +463,7 @@ class Gen:
         ret_name = next((c.args[0] for c in cls if c.kind == "ret"), "r")
         labels: List[str] = []
         info = {"fid": fid, "file": d.path, "line": S.line_of(st[it.kw].start), "sha256": self.items_sha[key],
-                "labels": labels, "unit": self.unit, "tags": {}}
+                "labels": labels, "unit": self.unit, "tags": {}, "kinds": {}}
         self.functions[fid] = info
 
         # E3: named return
@@ -559,6 +559,7 @@ class Gen:
                 lab = c.label
                 labels.append(lab)
                 info["tags"][lab] = c.args[2:]
+                info["kinds"][lab] = "closure"
                 spec_txt = c.text.strip()
                 # first line of the clause text: "(res: Type)"; rest: requires/ensures
                 mm = re.match(r"\((\w+)\s*:\s*(.*?)\)\s*\n(.*)$", spec_txt, re.S)
@@ -593,6 +594,7 @@ class Gen:
             lab = c.label
             labels.append(lab)
             info["tags"][lab] = c.args[2:]
+            info["kinds"][lab] = "loop"
             if lp.kind == "for":
                 if lp.in_kw is None: raise AnchorLost(f"{fid}: loop {k}: no `in`")
                 itname = c.args[2] if len(c.args) > 2 and not c.args[2].startswith("C") else "it"
